@@ -24,6 +24,17 @@
 (*     dtype contract: keep / safe cast to the first required dtype /      *)
 (*     InvalidSignalError), given out objects returned as they are.        *)
 (*                                                                         *)
+(* Two behaviours that are defined by NumPy / astropy rather than by       *)
+(* pulsarbat are modelled as those libraries define them and are NOT       *)
+(* alarms:  (a) when a later operand is an instance of a strict subclass   *)
+(* of an earlier signal's class, NumPy calls the subclass instance first,  *)
+(* so the result carries the subclass's type and metadata (DeclResolved;   *)
+(* FirstSignalUnlessSubclass states that this is the only exception to     *)
+(* "the first signal operand"); (b) `Quantity == Signal` and               *)
+(* `Quantity != Signal` are answered by astropy's Quantity.__eq__/__ne__   *)
+(* without consulting the signal: a plain boolean array comes back         *)
+(* (QtyEqStep).                                                            *)
+(*                                                                         *)
 (* The sample values are uninterpreted terms App(u, k, operand terms)      *)
 (* (output k of ufunc u); the replayer gives them a value by applying the  *)
 (* same ufunc to the raw arrays.  The property is stated declaratively     *)
